@@ -175,6 +175,7 @@ NP_KERNELS = [
             lean_name='open_limits_file', ret='L[Int]', not_none=['limits_file'],
             param_names=['data_length', 'limits_file'], params=['Int', 'Int'],       # the file name is an opaque token
             externals={'opentxt': ('ext_opentxt', ['Int'], 'L[Int]')})),
+        ('open_limits', dict(lean_name='open_limits_none', ret='L[Int]', consts={'limits_file': None}, param_names=['data_length'], params=['Int'])),
     ]),
     ('utils/datasets.py', 'UtilsDatasets', None, [
         ('propagate_tmat', dict(lean_name='propagate_tmat_start', ret='L[Int]', not_none=['start'], param_names=['tmat', 'nsteps', 'start'],
@@ -340,6 +341,71 @@ NP_KERNELS = [
             externals={'trajs.estimate_markov_model': ('ext_estimate', ['Int'], 'T[L[L[Rat]],L[Int]]', ['lagtime']), 'decl__log': ('ext_log', ['L[Cx]'], 'L[Cx]'),
                        'decl__eig': ('ext_eig', ['L[L[Rat]]'], 'T[L[Cx],L[L[Cx]]]'), 'decl__argsort': ('ext_argsort_cx', ['L[Cx]'], 'L[Int]')})),
     ]),
+    ('utils/_utils.py', 'UtilsSwap', None, [
+        ('_asindex', dict(params=['L[Int]'], ret='L[Int]', param_names=['idx'])),
+        # the assignment through the transposed VIEW is written with an explicit transposed copy (values are immutable in the translation)
+        ('swapcols', dict(params=['L[L[Int]]', 'L[Int]', 'L[Int]'], ret='L[L[Int]]', param_names=['array', 'indicesold', 'indicesnew'],
+                          rewrite_stmts={'array_swapped.T[indicesold] = array.T[indicesnew]':
+                                         'swapped_t = array_swapped.T\nswapped_t[indicesold] = array.T[indicesnew]\narray_swapped = swapped_t.T'})),
+    ]),
+    ('io.py', 'IoOpen', None, [
+        # `opentxt` for the default one-character comment (the pandas branch); the parser `pd.read_csv(...).values` is an oracle of (file, nrows, usecols) — file name and
+        # `nrows` are opaque tokens —; the function has two result types (1-d for a single column, 2-d otherwise) and two forms of `usecols` (None / a list): four
+        # specialisations, the data-dependent one guarded by an explicit check (`assume`)
+        ('opentxt', dict(lean_name='opentxt_cols_1d', ret='L[Int]', param_names=['file_name', 'nrows', 'usecols'], params=['Int', 'Int', 'L[Int]'],
+            consts={'comment': '#'}, facts={'len(comment) == 1': True, 'isinstance(comment, str)': True, 'cols is not None': True},
+            assume={'array.shape[-1] == 1': True}, rewrite_stmts={"cols = kwargs.pop('usecols', None)": 'cols = usecols', "array = pd.read_csv(file_name, sep='\\\\s+', header=None, comment=comment, nrows=nrows, usecols=cols, **kwargs).values": 'array = ext_read_csv(file_name, nrows, cols)'},
+            xcalls={'utils.swapcols': ('UtilsSwap', 'swapcols')}, externals={'ext_read_csv': ('ext_read_csv', ['Int', 'Int', 'L[Int]'], 'L[L[Int]]'), 'np.argsort': ('ext_argsort_int', ['L[Int]'], 'L[Int]')})),
+        ('opentxt', dict(lean_name='opentxt_cols_2d', ret='L[L[Int]]', param_names=['file_name', 'nrows', 'usecols'], params=['Int', 'Int', 'L[Int]'],
+            consts={'comment': '#'}, facts={'len(comment) == 1': True, 'isinstance(comment, str)': True, 'cols is not None': True},
+            assume={'array.shape[-1] == 1': False}, rewrite_stmts={"cols = kwargs.pop('usecols', None)": 'cols = usecols', "array = pd.read_csv(file_name, sep='\\\\s+', header=None, comment=comment, nrows=nrows, usecols=cols, **kwargs).values": 'array = ext_read_csv(file_name, nrows, cols)'},
+            xcalls={'utils.swapcols': ('UtilsSwap', 'swapcols')}, externals={'ext_read_csv': ('ext_read_csv', ['Int', 'Int', 'L[Int]'], 'L[L[Int]]'), 'np.argsort': ('ext_argsort_int', ['L[Int]'], 'L[Int]')})),
+        ('opentxt', dict(lean_name='opentxt_all_1d', ret='L[Int]', param_names=['file_name', 'nrows'], params=['Int', 'Int'],
+            consts={'comment': '#'}, facts={'len(comment) == 1': True, 'isinstance(comment, str)': True, 'cols is not None': False},
+            assume={'array.shape[-1] == 1': True}, rewrite_stmts={"cols = kwargs.pop('usecols', None)": 'pass', "array = pd.read_csv(file_name, sep='\\\\s+', header=None, comment=comment, nrows=nrows, usecols=cols, **kwargs).values": 'array = ext_read_csv_all(file_name, nrows)'},
+            xcalls={'utils.swapcols': ('UtilsSwap', 'swapcols')}, externals={'ext_read_csv_all': ('ext_read_csv_all', ['Int', 'Int'], 'L[L[Int]]')})),
+        ('opentxt', dict(lean_name='opentxt_all_2d', ret='L[L[Int]]', param_names=['file_name', 'nrows'], params=['Int', 'Int'],
+            consts={'comment': '#'}, facts={'len(comment) == 1': True, 'isinstance(comment, str)': True, 'cols is not None': False},
+            assume={'array.shape[-1] == 1': False}, rewrite_stmts={"cols = kwargs.pop('usecols', None)": 'pass', "array = pd.read_csv(file_name, sep='\\\\s+', header=None, comment=comment, nrows=nrows, usecols=cols, **kwargs).values": 'array = ext_read_csv_all(file_name, nrows)'},
+            xcalls={'utils.swapcols': ('UtilsSwap', 'swapcols')}, externals={'ext_read_csv_all': ('ext_read_csv_all', ['Int', 'Int'], 'L[L[Int]]')})),
+        ('opentxt_limits', dict(lean_name='opentxt_limits_1d_none', ret='L[L[Int]]', param_names=['file_name', 'dtype'], params=['Int', 'Int'], consts={'limits_file': None},
+            rewrite_stmts={'traj = opentxt(file_name, **kwargs)': 'traj = ext_opentxt_data(file_name, dtype)'},
+            xcalls={'open_limits': ('IoLimits', 'open_limits_none')},
+            externals={'ext_opentxt_data': ('ext_opentxt_data', ['Int', 'Int'], 'L[Int]'), 'decl__opentxt': ('ext_opentxt', ['Int'], 'L[Int]')})),
+        ('opentxt_limits', dict(lean_name='opentxt_limits_1d_file', ret='L[L[Int]]', param_names=['file_name', 'limits_file', 'dtype'], params=['Int', 'Int', 'Int'], not_none=['limits_file'],
+            rewrite_stmts={'traj = opentxt(file_name, **kwargs)': 'traj = ext_opentxt_data(file_name, dtype)'},
+            xcalls={'open_limits': ('IoLimits', 'open_limits_file')},
+            externals={'ext_opentxt_data': ('ext_opentxt_data', ['Int', 'Int'], 'L[Int]'), 'decl__opentxt': ('ext_opentxt', ['Int'], 'L[Int]')})),
+        ('opentxt_limits', dict(lean_name='opentxt_limits_2d_none', ret='L[L[L[Int]]]', param_names=['file_name', 'dtype'], params=['Int', 'Int'], consts={'limits_file': None},
+            rewrite_stmts={'traj = opentxt(file_name, **kwargs)': 'traj = ext_opentxt_data(file_name, dtype)'},
+            xcalls={'open_limits': ('IoLimits', 'open_limits_none')},
+            externals={'ext_opentxt_data': ('ext_opentxt_data_2d', ['Int', 'Int'], 'L[L[Int]]'), 'decl__opentxt': ('ext_opentxt', ['Int'], 'L[Int]')})),
+        ('opentxt_limits', dict(lean_name='opentxt_limits_2d_file', ret='L[L[L[Int]]]', param_names=['file_name', 'limits_file', 'dtype'], params=['Int', 'Int', 'Int'], not_none=['limits_file'],
+            rewrite_stmts={'traj = opentxt(file_name, **kwargs)': 'traj = ext_opentxt_data(file_name, dtype)'},
+            xcalls={'open_limits': ('IoLimits', 'open_limits_file')},
+            externals={'ext_opentxt_data': ('ext_opentxt_data_2d', ['Int', 'Int'], 'L[L[Int]]'), 'decl__opentxt': ('ext_opentxt', ['Int'], 'L[Int]')})),
+        ('openmicrostates', dict(lean_name='openmicrostates_default_1d_none', ret='L[L[Int]]', param_names=['file_name'], params=['Int'], consts={'limits_file': None},
+            facts={"'dtype' not in kwargs": True}, rewrite_stmts={"kwargs['dtype'] = np.int16": 'dtype = 16', 'traj = opentxt_limits(file_name, limits_file, **kwargs)': 'traj = opentxt_limits(file_name, dtype=dtype)'}, xcalls={'opentxt_limits': ('IoOpen', 'opentxt_limits_1d_none')},
+            externals={'decl__data': ('ext_opentxt_data', ['Int', 'Int'], 'L[Int]'), 'decl__opentxt': ('ext_opentxt', ['Int'], 'L[Int]')})),
+        ('openmicrostates', dict(lean_name='openmicrostates_default_1d_file', ret='L[L[Int]]', param_names=['file_name', 'limits_file'], params=['Int', 'Int'], not_none=['limits_file'],
+            facts={"'dtype' not in kwargs": True}, rewrite_stmts={"kwargs['dtype'] = np.int16": 'dtype = 16', 'traj = opentxt_limits(file_name, limits_file, **kwargs)': 'traj = opentxt_limits(file_name, limits_file=limits_file, dtype=dtype)'}, xcalls={'opentxt_limits': ('IoOpen', 'opentxt_limits_1d_file')},
+            externals={'decl__data': ('ext_opentxt_data', ['Int', 'Int'], 'L[Int]'), 'decl__opentxt': ('ext_opentxt', ['Int'], 'L[Int]')})),
+        ('openmicrostates', dict(lean_name='openmicrostates_default_2d_none', ret='L[L[L[Int]]]', param_names=['file_name'], params=['Int'], consts={'limits_file': None},
+            facts={"'dtype' not in kwargs": True}, rewrite_stmts={"kwargs['dtype'] = np.int16": 'dtype = 16', 'traj = opentxt_limits(file_name, limits_file, **kwargs)': 'traj = opentxt_limits(file_name, dtype=dtype)'}, xcalls={'opentxt_limits': ('IoOpen', 'opentxt_limits_2d_none')},
+            externals={'decl__data': ('ext_opentxt_data_2d', ['Int', 'Int'], 'L[L[Int]]'), 'decl__opentxt': ('ext_opentxt', ['Int'], 'L[Int]')})),
+        ('openmicrostates', dict(lean_name='openmicrostates_default_2d_file', ret='L[L[L[Int]]]', param_names=['file_name', 'limits_file'], params=['Int', 'Int'], not_none=['limits_file'],
+            facts={"'dtype' not in kwargs": True}, rewrite_stmts={"kwargs['dtype'] = np.int16": 'dtype = 16', 'traj = opentxt_limits(file_name, limits_file, **kwargs)': 'traj = opentxt_limits(file_name, limits_file=limits_file, dtype=dtype)'}, xcalls={'opentxt_limits': ('IoOpen', 'opentxt_limits_2d_file')},
+            externals={'decl__data': ('ext_opentxt_data_2d', ['Int', 'Int'], 'L[L[Int]]'), 'decl__opentxt': ('ext_opentxt', ['Int'], 'L[Int]')})),
+        ('openmicrostates', dict(lean_name='openmicrostates_int_1d_none', ret='L[L[Int]]', param_names=['file_name', 'dtype'], params=['Int', 'Int'], consts={'limits_file': None},
+            facts={"'dtype' not in kwargs": False, "np.issubdtype(kwargs['dtype'], np.integer)": True}, rewrite_stmts={"kwargs['dtype'] = np.int16": 'dtype = 16', 'traj = opentxt_limits(file_name, limits_file, **kwargs)': 'traj = opentxt_limits(file_name, dtype=dtype)'}, xcalls={'opentxt_limits': ('IoOpen', 'opentxt_limits_1d_none')},
+            externals={'decl__data': ('ext_opentxt_data', ['Int', 'Int'], 'L[Int]'), 'decl__opentxt': ('ext_opentxt', ['Int'], 'L[Int]')})),
+        ('openmicrostates', dict(lean_name='openmicrostates_int_1d_file', ret='L[L[Int]]', param_names=['file_name', 'limits_file', 'dtype'], params=['Int', 'Int', 'Int'], not_none=['limits_file'],
+            facts={"'dtype' not in kwargs": False, "np.issubdtype(kwargs['dtype'], np.integer)": True}, rewrite_stmts={"kwargs['dtype'] = np.int16": 'dtype = 16', 'traj = opentxt_limits(file_name, limits_file, **kwargs)': 'traj = opentxt_limits(file_name, limits_file=limits_file, dtype=dtype)'}, xcalls={'opentxt_limits': ('IoOpen', 'opentxt_limits_1d_file')},
+            externals={'decl__data': ('ext_opentxt_data', ['Int', 'Int'], 'L[Int]'), 'decl__opentxt': ('ext_opentxt', ['Int'], 'L[Int]')})),
+        ('openmicrostates', dict(lean_name='openmicrostates_nonint_1d_none', ret='L[L[Int]]', param_names=['file_name', 'dtype'], params=['Int', 'Int'], consts={'limits_file': None},
+            facts={"'dtype' not in kwargs": False, "np.issubdtype(kwargs['dtype'], np.integer)": False}, rewrite_stmts={"kwargs['dtype'] = np.int16": 'dtype = 16', 'traj = opentxt_limits(file_name, limits_file, **kwargs)': 'traj = opentxt_limits(file_name, dtype=dtype)'}, xcalls={'opentxt_limits': ('IoOpen', 'opentxt_limits_1d_none')},
+            externals={'decl__data': ('ext_opentxt_data', ['Int', 'Int'], 'L[Int]'), 'decl__opentxt': ('ext_opentxt', ['Int'], 'L[Int]')})),
+    ]),
 ]
 
 # calls of translated functions of OTHER modules: dotted python name -> (namespace, function)
@@ -453,6 +519,7 @@ class _Prep(ast.NodeTransformer):
     flags    {'numba.config.DISABLE_JIT': 'cfg_disable_jit'} : a module-level configuration flag becomes a Bool parameter."""
 
     def __init__(self, sig):
+        self.assume = sig.get('assume', {})                # source text of an `if` test -> the value this specialisation is FOR; a guard raising on the other value is emitted
         self.facts = sig.get('facts', {})                  # source text of an expression -> constant (type dispatch resolved by the signature table)
         self.self_locals = set(sig.get('self_locals', []))  # self.<x> assigned by the method: a local variable self_<x>
         self.self_props_raw = sig.get('self_props', {})
@@ -574,6 +641,20 @@ class _Prep(ast.NodeTransformer):
         return node
 
     def visit_If(self, node):
+        try:
+            txt = ast.unparse(node.test)
+        except Exception:  # noqa
+            txt = None
+        if txt in self.assume:
+            # data-dependent branch with two result types: this specialisation covers one value of the test; the other value is an explicit error
+            val = self.assume[txt]
+            bad = ast.UnaryOp(op=ast.Not(), operand=node.test) if val else node.test
+            guard = ast.If(test=bad, body=[ast.Raise(exc=ast.Call(func=ast.Name(id='AssumptionViolated', ctx=ast.Load()), args=[], keywords=[]), cause=None)], orelse=[])
+            out = [self.generic_visit(guard)]
+            for st in (node.body if val else node.orelse):
+                r = self.visit(st)
+                out.extend(r if isinstance(r, list) else ([] if r is None else [r]))
+            return out
         node = self.generic_visit(node)
         t = node.test
         neg = False
@@ -598,7 +679,7 @@ class _Prep(ast.NodeTransformer):
 
 def prepare(node, sig):
     """returns a FunctionDef whose positional parameters are exactly sig['param_names'] (when given)"""
-    if not any(k in sig for k in ('objects', 'consts', 'flags', 'param_names', 'not_none', 'facts', 'self_locals', 'self_props', 'kwargs_consts',
+    if not any(k in sig for k in ('objects', 'consts', 'flags', 'param_names', 'not_none', 'facts', 'assume', 'self_locals', 'self_props', 'kwargs_consts',
                                   'drop_stmts', 'returns_self', 'selfcalls', 'super_init', 'rewrite_stmts')):
         return node
     import copy
@@ -971,13 +1052,14 @@ class NpFn(Fn):
                 if t != ('L', 'Bool'):
                     raise Unsupported('%s: np.where of %s' % (self.name, t))
                 return pre, '(npWhere1 %s)' % c, ('L', 'Int')
-            # x.shape[k]
-            if isinstance(sl, ast.Constant) and isinstance(sl.value, int):
+            # x.shape[k]  (k a literal, possibly negative)
+            neg_lit = isinstance(sl, ast.UnaryOp) and isinstance(sl.op, ast.USub) and isinstance(sl.operand, ast.Constant) and isinstance(sl.operand.value, int)
+            if (isinstance(sl, ast.Constant) and isinstance(sl.value, int)) or neg_lit:
                 tv = self.typeof(e.value)
                 if isinstance(tv, tuple) and tv[0] == 'T':
                     v, _ = sub(e.value)
-                    k = sl.value
                     n = len(tv) - 1
+                    k = sl.value if not neg_lit else n - sl.operand.value
                     if not 0 <= k < n:
                         raise Unsupported('tuple index')
                     proj = v + '.2' * k + ('.1' if k < n - 1 else '')
@@ -1337,6 +1419,27 @@ class NpFn(Fn):
                 if not is_mat(t):
                     raise Unsupported('%s: transpose of %s' % (self.name, t))
                 return pre, '(npTranspose %s)' % c, t
+            if name == 'len' and len(args) == 1 and not kw:
+                ta_ = None
+                try:
+                    ta_ = self.typeof(args[0])
+                except Unsupported:
+                    ta_ = None
+                if isinstance(ta_, tuple) and ta_[0] == 'T':
+                    return pre, '(%d : Int)' % (len(ta_) - 1), 'Int'       # the length of a shape tuple is static
+            if name == 'np.all' and len(args) == 1 and not kw:
+                c, t = sub(args[0])
+                if t == ('L', 'Bool'):
+                    return pre, '(npAll1 %s)' % c, 'Bool'
+                if t == ('L', ('L', 'Bool')):
+                    return pre, '(npAll2 %s)' % c, 'Bool'
+                raise Unsupported('%s: np.all of %s' % (self.name, t))
+            if (name == 'np.copy' and len(args) == 1 and not kw) or (meth == 'copy' and not args and not kw and (is_vec(self.typeof(e.func.value)) or is_mat(self.typeof(e.func.value)))):
+                c, t = sub(args[0] if args else e.func.value)
+                return pre, c, t          # values are immutable
+            if meth == 'flatten' and not args and not kw and is_mat(self.typeof(e.func.value)):
+                c, t = sub(e.func.value)
+                return pre, '((%s).flatten)' % c, t[1]
             if name == 'np.real' and len(args) == 1 and not kw:
                 c, t = sub(args[0])
                 if elem(t) != 'Cx':
@@ -1381,7 +1484,7 @@ class NpFn(Fn):
             if name == 'np.split':
                 a, ta = sub(args[0])
                 b, tb = sub(args[1])
-                if not is_vec(ta) or tb != ('L', 'Int'):
+                if not (is_vec(ta) or is_mat(ta)) or tb != ('L', 'Int'):
                     raise Unsupported('%s: np.split form' % self.name)
                 return pre, '(npSplit %s %s)' % (a, b), ('L', ta)
             if name == 'np.floor':
@@ -1844,7 +1947,7 @@ class NpFn(Fn):
                                 cv = '((%s).map cxReal)' % cv      # a float array: numpy stores the real part of a complex value
                             out.append(sp + '%s ← npSetRow %s %s %s' % (arr, arr, ci, self.coerce(cv, tv, ta[1])))
                             return out
-                if not isinstance(sl, (ast.Slice, ast.Tuple)) and is_vec(ta) and self.typeof(sl) == ('L', 'Int'):
+                if not isinstance(sl, (ast.Slice, ast.Tuple)) and (is_vec(ta) or is_mat(ta)) and self.typeof(sl) == ('L', 'Int'):
                     pm, cm, tm = self.ex(sl)
                     pv, cv, tv = self.ex(s.value)
                     if tv == ta:
@@ -2077,7 +2180,10 @@ EXT_IMPL = {'ext_peq': 'MsmVerif.GenCodec.oracleVec "peq"', 'ext_argsort': 'MsmV
             'ext_estimator': 'MsmVerif.GenCodec.oracleConst5 "estimator"',
             'ext_eig': 'MsmVerif.GenCodec.oracleTableKey "eig"',
             'ext_argsort_cx': 'MsmVerif.GenCodec.oracleTableKey "argsort_cx"',
-            'ext_log': 'MsmVerif.GenCodec.oracleElemwise "log"'}
+            'ext_log': 'MsmVerif.GenCodec.oracleElemwise "log"',
+            'ext_read_csv': 'MsmVerif.GenCodec.oracleConst3 "read_csv"',
+            'ext_opentxt_data': 'MsmVerif.GenCodec.oracleConst2 "data"', 'ext_opentxt_data_2d': 'MsmVerif.GenCodec.oracleConst2 "data"',
+            'ext_read_csv_all': 'MsmVerif.GenCodec.oracleConst2 "read_csv"'}
 
 
 def translate_all(repo, files, probs):
